@@ -15,6 +15,9 @@ pub enum Op {
     J2(bool),
     Uio(u8, bool),
     Di1(u8),
+    /// master reset of the bus the board sits on (second program load): outputs, control register
+    /// and directions go to their reset values; what the board reports afterwards follows the same rules
+    Reset,
 }
 
 fn apply(b: &mut Bus, r: &mut RBoard, op: Op) {
@@ -54,6 +57,15 @@ fn apply(b: &mut Bus, r: &mut RBoard, op: Op) {
         Op::Di1(v) => {
             b.board_mut().set_digital_input1(v);
             r.set_di1(v);
+        }
+        Op::Reset => {
+            b.master_reset();
+            r.master_reset();
+            // the statement does not say what the comparator bits are right after a reset that moved the
+            // DACs without an event: they are taken over as they are and judged again from the next event on
+            let st = b.read(0xF1);
+            r.comp1 = st & 0x08 != 0;
+            r.comp2 = st & 0x10 != 0;
         }
     }
 }
@@ -110,6 +122,7 @@ fn op_str(o: &Op) -> String {
         Op::J2(v) => format!("k{}", *v as u8),
         Op::Uio(i, v) => format!("u{}{}", i, *v as u8),
         Op::Di1(v) => format!("d{:02x}", v),
+        Op::Reset => "m".to_string(),
     }
 }
 
@@ -133,6 +146,7 @@ fn parse_ops(s: &str) -> Vec<Op> {
                 "b" => Op::Ai2(f(rest)),
                 "j" => Op::J1(rest == "1"),
                 "k" => Op::J2(rest == "1"),
+                "m" => Op::Reset,
                 "u" => Op::Uio(rest[..1].parse().unwrap(), &rest[1..] == "1"),
                 _ => Op::Di1(u8::from_str_radix(rest, 16).unwrap()),
             }
@@ -182,6 +196,7 @@ fn alphabet(quick: bool) -> Vec<Op> {
     }
     v.push(Op::Di1(0));
     v.push(Op::Di1(0xA5));
+    v.push(Op::Reset);
     let volts: Vec<f32> = if quick {
         vec![0.0, 0.01, 0.998, 1.002, 2.55, 2.56, 7.0, -1.0, f32::NAN]
     } else {
@@ -263,6 +278,8 @@ fn port_value_sweep(full: bool) -> (u64, Vec<(String, String, String)>) {
         vec![Op::W(0xF2, 0x85), Op::W(0xF2, 0x02), Op::Uio(1, true), Op::J2(true), Op::W(0xF0, 120), Op::W(0xF1, 200), Op::Ai1(1.3), Op::Ai2(1.9)],
         vec![Op::W(0xF2, 0xC9), Op::Uio(0, true), Op::W(0xF2, 0xC6), Op::J1(true), Op::J1(false), Op::Di1(0x5A)],
         vec![Op::W(0xF2, 0x87), Op::W(0xF2, 0x07), Op::W(0xF2, 0xCB), Op::W(0xF0, 255), Op::W(0xF1, 1), Op::Ai1(5.0), Op::Ai2(0.0)],
+        // a board that lived, then went through a master reset with its analog inputs still applied
+        vec![Op::Ai1(1.3), Op::Ai2(1.9), Op::W(0xF0, 200), Op::W(0xF1, 250), Op::W(0xF2, 0xE4), Op::W(0xF2, 0x83), Op::Reset],
     ];
     let events: Vec<Op> = vec![
         Op::J1(true), Op::J1(false), Op::J2(true), Op::Uio(0, true), Op::Uio(0, false), Op::Uio(1, true), Op::Uio(1, false), Op::Uio(2, true), Op::Uio(2, false),
@@ -702,7 +719,7 @@ pub fn run() {
     ctx.set("threshold_sweep_operations", thr_ops);
     ctx.set("evaluations", stats.transitions as u64 + fan_points + f32_calls + pv_ops + thr_ops);
     ctx.set("distinct_nontrivial", stats.states);
-    ctx.set("rule", "BFS from 3 start boards: every sequence of the operation alphabet to the depth, deduplicated on the derived Debug of the real board; after every operation reads of 0xF0-0xF3 and all getters named in the statement are compared with REF-BOARD; f32: every enumerated bit pattern through the three analog setters against the clamp rule and the comparator bits; fan period for all 256 DAC bytes; threshold sweep: for every DAC byte x 3 analog setters x 5 comparator interrupt selections the input walks up and down through the DAC voltage in steps from 0.3 V to 1 ulp; port values: every byte value written to each of the four ports from 5 prior board states, each followed by every external event and its complement, and every ordered pair of writes to the control port 0xF2 followed by three external events");
+    ctx.set("rule", "BFS from 3 start boards: every sequence of the operation alphabet (port writes, external setters, master reset of the bus) to the depth, deduplicated on the derived Debug of the real board; after every operation reads of 0xF0-0xF3 and all getters named in the statement are compared with REF-BOARD; f32: every enumerated bit pattern through the three analog setters against the clamp rule and the comparator bits; fan period for all 256 DAC bytes; threshold sweep: for every DAC byte x 3 analog setters x 5 comparator interrupt selections the input walks up and down through the DAC voltage in steps from 0.3 V to 1 ulp; port values: every byte value written to each of the four ports from 6 prior board states (one after a master reset with analog inputs applied), each followed by every external event and its complement, and every ordered pair of writes to the control port 0xF2 followed by three external events");
     ctx.set("exhaustive", !stats.cap_hit);
     ctx.set("bounds", format!("BFS depth {} over {} operations; f32 patterns: {}", depth, alpha.len(), if quick { "2^22 (every sign x exponent x 12 leading mantissa bits, trailing bits all-0 and all-1)" } else { "all 2^32" }));
     ctx.set("bfs_frontiers", Json::Arr(stats.frontier_sizes.iter().map(|n| Json::Int(*n as i64)).collect()));
